@@ -90,7 +90,8 @@ def verify_function(eng, qualname):
                     raise ContractError("%s: ghost return %s: no local named %s at return" % (qualname, gname, local))
                 env[gname] = s.env[local]
             # vacuity canary: the hypotheses accumulated on (at least one) return path must be satisfiable
-            eng.oblige(s, "cover:return", 'cover', z3.BoolVal(False), fdef, expect_sat=True)
+            if not any(str(cnd).strip() == 'True' for cnd in c.raises.values()):   # a contract that always raises never returns
+                eng.oblige(s, "cover:return", 'cover', z3.BoolVal(False), fdef, expect_sat=True)
             for label, clause in c.labelled(c.ensures, 'post'):
                 t = eval_bool(eng, clause, env, s, old=old)
                 if label.startswith('def:'):
